@@ -377,7 +377,7 @@ func init() {
 	register(&Rule{
 		ID: "C04-f", Template: "T12 ownership (a cached window travels with its bounds)",
 		Doc: "iterateAndMatch keeps the block indices of the other table's current window across iterations and hands them back to getBlockIndices together with the window's bounds, which re-uses the overlap instead of re-reading it. For every call, inside a loop, of a function of pkg/diff that has parameters `prevX` next to `X` (and a `prev…` slice next to its slice result): the value passed as prevX is loop-carried and, on every way round the loop, is exactly what was passed as X in the previous call (or unchanged); the slice passed as the previous window is the previous call's result. Bounds that lag, lead or are updated only sometimes make the copy in getBlockIndices take indices of other blocks: rows are looked up in the wrong block and reported as added and removed instead of unchanged.",
-		Min: 4,
+		Min: 2,
 		Run: func(p *Program, r *RuleResult) error {
 			fns := p.FuncsInPkg("pkg/diff")
 			r.Analysed = len(fns)
@@ -392,9 +392,6 @@ func init() {
 						return
 					}
 					hdr := enclosingLoop(call.Block())
-					if hdr == nil {
-						return
-					}
 					args := c.Common().Args
 					byName := map[string]int{}
 					for i, prm := range callee.Params {
@@ -425,6 +422,18 @@ func init() {
 							}
 						}
 						if wantVal == nil {
+							continue
+						}
+						if fieldCarried(fn, args[i], wantVal, func(ok bool, why string) {
+							if ok {
+								r.okWhy(key, p.Rel(c.Pos()), what, why)
+							} else {
+								r.bad(key, p.Rel(c.Pos()), what, why)
+							}
+						}) {
+							continue
+						}
+						if hdr == nil {
 							continue
 						}
 						phi, ok := args[i].(*ssa.Phi)
@@ -504,4 +513,47 @@ func litSig(fields map[string]ssa.Value) string {
 		}
 	}
 	return strings.Join(parts, "+")
+}
+
+// fieldCarried: the previous window is kept in fields of an object (round 7, refactoring N1-r2:
+// a blockWindow struct with a slide method). v is a load of a field; when the function also
+// stores into that field, every such store must write `want`. A field that is only read here
+// (written by a method elsewhere) is not judged. Reports through `out` and returns true when v
+// has this form.
+func fieldCarried(fn *ssa.Function, v, want ssa.Value, out func(ok bool, why string)) bool {
+	u, ok := v.(*ssa.UnOp)
+	if !ok || u.Op != token.MUL {
+		return false
+	}
+	fa, ok := u.X.(*ssa.FieldAddr)
+	if !ok {
+		return false
+	}
+	n, bad := 0, ""
+	for _, b := range fn.Blocks {
+		for _, in := range b.Instrs {
+			st, ok := in.(*ssa.Store)
+			if !ok {
+				continue
+			}
+			fb, ok := st.Addr.(*ssa.FieldAddr)
+			if !ok || fb.Field != fa.Field || !(fb.X == fa.X || sameObject(fb.X, fa.X) || sameAddr(fb.X, fa.X)) {
+				continue
+			}
+			n++
+			if st.Val != want {
+				bad = "the field that keeps the previous value is assigned " + st.Val.Name() + ", not what this call was given as the current value"
+			}
+		}
+	}
+	switch {
+	case n == 0:
+		// written elsewhere (or never): nothing to compare in this function
+		return true
+	case bad != "":
+		out(false, bad)
+	default:
+		out(true, "kept in a field that is assigned exactly the current value after the call")
+	}
+	return true
 }
